@@ -2,8 +2,11 @@
    transaction, and the glue that compares the model (Witness.v) with the implementation on a case.
 
    The oracle reads the transaction the implementation returned (Cbor.decode of tx.to_cbor()), rebuilds the
-   ledger's view of it ([txdesc]: inputs and collateral resolved through the scenario's UTxO table, body fields
-   14 / 4 / 5 / 19, native scripts of the witness set) and applies the SPECIFICATION Ledger.required_key_hashes.
+   ledger's view of it ([txdesc]: inputs, collateral and reference inputs (body field 18) resolved through the
+   scenario's UTxO table — payment credential and the native script the output carries, if any —, body fields
+   14 / 9 / 4 / 5 / 19, native scripts of the witness set) and applies the SPECIFICATION Ledger.required_key_hashes.
+   Script hashes are BLAKE2b-224(0x00 || CBOR of the script): the CBOR is produced here (ns_cbor, Cbor.enc), the digest
+   is looked up in the harness's hashlib table; a script without an entry makes the oracle fail (fail closed).
    Hashes and signature checks cannot be computed here; they come from the harness's independent primitives
    (hashlib BLAKE2b, pure-Python RFC 8032) as tables and are cross-checked against the decoded transaction. *)
 From Coq Require Import NArith String List Bool.
@@ -40,6 +43,23 @@ Fixpoint mfind (k : N) (kvs : list (cbor * cbor)) : option cbor :=
   end.
 
 Definition as_bytes (x : cbor) : option bytes := match x with CB b => Some b | _ => None end.
+
+(* ------------------------------------------------------------------ script hashes *)
+(* CDDL native_script *)
+Fixpoint ns_cbor (s : nscript) : cbor :=
+  match s with
+  | NsPubkey h => CA [CU 0; CB h]
+  | NsAll l => CA [CU 1; CA (map ns_cbor l)]
+  | NsAny l => CA [CU 2; CA (map ns_cbor l)]
+  | NsNofK n l => CA [CU 3; CU n; CA (map ns_cbor l)]
+  | NsInvalidBefore t => CA [CU 4; CU t]
+  | NsInvalidHereafter t => CA [CU 5; CU t]
+  end.
+Definition ns_preimage (s : nscript) : bytes := x00 :: enc (ns_cbor s).
+(* h28 : byte string -> its BLAKE2b-224 (hashlib), as a table *)
+Definition sh_of (h28 : list (bytes * bytes)) (s : nscript) : bytes := lookup_d h28 (ns_preimage s).
+Definition has_sh (h28 : list (bytes * bytes)) (s : nscript) : bool :=
+  match lookup (ns_preimage s) h28 with Some h => Nat.eqb (length h) 28 | None => false end.
 
 (* ------------------------------------------------------------------ reading the ledger's view *)
 Definition cred_of (x : cbor) : option cred :=
@@ -117,14 +137,18 @@ Definition reward_cred_of (x : cbor) : option cred :=
   | _ => None
   end.
 
-Definition utxo_table := list ((bytes * N) * cred).
-Fixpoint resolve (t : utxo_table) (txid : bytes) (ix : N) : option cred :=
+(* the chain state of the scenario: outpoint -> (payment credential of the address, native script the output carries) *)
+Definition utxo_table := list ((bytes * N) * (cred * option nscript)).
+Fixpoint resolve (t : utxo_table) (txid : bytes) (ix : N) : option (cred * option nscript) :=
   match t with
   | [] => None
   | ((i, n), c) :: r => if bytes_eqb i txid && (n =? ix) then Some c else resolve r txid ix
   end.
-Definition input_cred (t : utxo_table) (x : cbor) : option cred :=
+Definition input_out (t : utxo_table) (x : cbor) : option (cred * option nscript) :=
   match x with CA [CB txid; CU ix] => resolve t txid ix | _ => None end.
+Definition input_cred (t : utxo_table) (x : cbor) : option cred := option_map fst (input_out t x).
+Definition out_scripts (l : list (cred * option nscript)) : list nscript :=
+  flat_map (fun o => match snd o with Some s => [s] | None => [] end) l.
 
 (* optional field holding a collection: absent = empty *)
 Definition field_items {A} (f : cbor -> option A) (x : option cbor) : option (list A) :=
@@ -151,12 +175,17 @@ Record txread := mkRead {
 Definition read_tx (t : utxo_table) (tx : bytes) : option txread :=
   match decode tx with
   | Some (CA (CM body :: CM ws :: _)) =>
-      match field_items (input_cred t) (mfind 0 body), field_items (input_cred t) (mfind 13 body),
+      match field_items (input_out t) (mfind 0 body), field_items (input_cred t) (mfind 13 body),
             field_items as_bytes (mfind 14 body), field_items (ns_of 64) (mfind 1 ws),
             field_items cert_of (mfind 4 body), field_keys reward_cred_of (mfind 5 body),
             field_keys voter_of (mfind 19 body), field_items wit_of_cbor (mfind 0 ws) with
       | Some ins, Some col, Some rs, Some nss, Some certs, Some wds, Some vts, Some wits =>
-          Some (mkRead (mkTx ins col rs nss certs wds vts) wits (enc (CM body)))
+          match field_items (input_out t) (mfind 18 body), field_keys as_bytes (mfind 9 body) with
+          | Some refs, Some pols =>
+              Some (mkRead (mkTx (map fst ins) col rs nss (out_scripts ins ++ out_scripts refs) pols certs wds vts)
+                           wits (enc (CM body)))
+          | _, _ => None
+          end
       | _, _, _, _, _, _, _, _ => None
       end
   | _ => None
@@ -184,7 +213,10 @@ Definition c10_oracle (t : utxo_table) (supplied : list bytes) (force : bool)
   | None => false
   | Some r =>
       let ws := r_wits r in
+      let SH := sh_of h28 in
       bytes_eqb (r_body_bytes r) body_slice
+      (* every native script the ledger sees has a hash in the table *)
+      && forallb (has_sh h28) (d_native_scripts (r_desc r) ++ d_ref_scripts (r_desc r))
       (* each witness: 32-byte key, 64-byte signature, verifies over the transaction id *)
       && forallb (fun w => Nat.eqb (length (fst w)) 32 && Nat.eqb (length (snd w)) 64
                            && existsb (fun v => triple_eqb (fst v) (fst w, txid, snd w) && snd v) verif) ws
@@ -194,7 +226,7 @@ Definition c10_oracle (t : utxo_table) (supplied : list bytes) (force : bool)
       && match all_some (fun w => lookup (fst w) h28) ws with
          | None => false
          | Some whs =>
-             let req := Ledger.required_key_hashes (r_desc r) in
+             let req := Ledger.required_key_hashes SH (r_desc r) in
              if force then set_eqb whs supplied
              else subsetb (filter (fun h => memb h req) supplied) whs
                   && subsetb whs (filter (fun h => memb h (req ++ legacy_keys (r_desc r))) supplied)
@@ -205,14 +237,14 @@ Definition c10_oracle (t : utxo_table) (supplied : list bytes) (force : bool)
    registration key may be counted in addition), 32 + 64 bytes each, pairwise distinct.  lo/hi from the specification. *)
 Fixpoint nodup_pairs (l : list (bytes * bytes)) : bool :=
   match l with [] => true | x :: r => negb (mem_pair x r) && nodup_pairs r end.
-Definition count_ok (d : txdesc) (n : N) : bool :=
-  let req := Ledger.required_key_hashes d in
+Definition count_ok (SH : nscript -> bytes) (d : txdesc) (n : N) : bool :=
+  let req := Ledger.required_key_hashes SH d in
   (lenN (dedup req) <=? n) && (n <=? lenN (dedup (req ++ legacy_keys d))).
-Definition c10_oracle_fake (d : txdesc) (override : option N) (fake : list (bytes * bytes)) : bool :=
+Definition c10_oracle_fake (SH : nscript -> bytes) (d : txdesc) (override : option N) (fake : list (bytes * bytes)) : bool :=
   match override with
   | Some _ => true
   | None =>
-      count_ok d (lenN fake)
+      count_ok SH d (lenN fake)
       && forallb (fun w => Nat.eqb (length (fst w)) 32 && Nat.eqb (length (snd w)) 64) fake
       && nodup_pairs fake
   end.
@@ -230,12 +262,16 @@ Fixpoint pairs_eqb (a b : list (bytes * bytes)) : bool :=
 Record impl_slice := mkSlice {
   s_required_signers : list bytes; s_inputs : list bytes; s_certs : list bytes; s_votes : list bytes;
   s_withdrawals : list bytes; s_native : list bytes; s_required : list bytes;
-  s_witness_count : N; s_fake : list (bytes * bytes)
+  s_witness_count : N; s_fake : list (bytes * bytes);
+  s_all_scripts : list bytes;          (* script_hash of every member of builder.all_scripts (pycardano's hash) *)
+  s_scripts : list bytes               (* ... of builder.scripts *)
 }.
 
 (* the six collectors, their union, _witness_count and the placeholder witnesses, on the prepared builder *)
-Definition c10_corr_slice (b : bdesc) (s : impl_slice) : bool :=
-  set_eqb (s_required_signers s) (required_signer_vkey_hashes b)
+Definition c10_corr_slice (SH : nscript -> bytes) (b : bdesc) (s : impl_slice) : bool :=
+  set_eqb (s_all_scripts s) (map SH (all_scripts b))
+  && set_eqb (s_scripts s) (map SH (scripts SH b))
+  && set_eqb (s_required_signers s) (required_signer_vkey_hashes b)
   && set_eqb (s_inputs s) (input_vkey_hashes b)
   && set_eqb (s_certs s) (certificate_vkey_hashes b)
   && set_eqb (s_votes s) (vote_vkey_hashes b)
@@ -254,19 +290,24 @@ Definition c10_corr_sign (b : bdesc) (keys : list skey) (auto : option bool) (fo
            (pubs h28 sigs : list (bytes * bytes)) (t : utxo_table)
            (req_post : list bytes) (tx txid : bytes) : bool :=
   let H28 := lookup_d h28 in
+  let SH := sh_of h28 in
   let ord_pub := lookup_d pubs in
   let ord_sign := fun seed (_ : bytes) => lookup_d sigs seed in
   let ext_sign := fun kL kR (_ : bytes) => lookup_d sigs (kL ++ kR) in
-  let b' := after_auto H28 ord_pub auto keys b in
+  let b' := after_auto SH H28 ord_pub auto keys b in
   match read_tx t tx with
   | None => false
   | Some r =>
       forallb (fun k => match lookup (vk32 ord_pub k) h28 with Some _ => true | None => false end) keys
       && set_eqb req_post (builder_required b')
       && pairs_set_eqb (r_wits r)
-           (map wit_bytes (build_and_sign_witnesses H28 (fun _ => txid) ord_pub ord_sign ext_sign b auto force keys []))
-      && Nat.eqb (length (r_wits r)) (length (build_and_sign_witnesses H28 (fun _ => txid) ord_pub ord_sign ext_sign b auto force keys []))
-      && set_eqb (Ledger.required_key_hashes (r_desc r)) (Ledger.required_key_hashes (tx_of b'))
+           (map wit_bytes (build_and_sign_witnesses SH H28 (fun _ => txid) ord_pub ord_sign ext_sign b auto force keys []))
+      && Nat.eqb (length (r_wits r)) (length (build_and_sign_witnesses SH H28 (fun _ => txid) ord_pub ord_sign ext_sign b auto force keys []))
+      && set_eqb (Ledger.required_key_hashes SH (r_desc r)) (Ledger.required_key_hashes SH (tx_of SH b'))
+      (* the scripts shipped in the witness set, and the scripts reachable through reference / spent outputs, are the model's *)
+      && set_eqb (map SH (d_native_scripts (r_desc r))) (map SH (witness_scripts SH b'))
+      && set_eqb (map SH (d_ref_scripts (r_desc r))) (map SH (d_ref_scripts (tx_of SH b')))
+      && set_eqb (Ledger.scripts_needed (r_desc r)) (Ledger.scripts_needed (tx_of SH b'))
   end.
 
 (* ------------------------------------------------------------------ a correspondence case *)
@@ -290,8 +331,17 @@ Record c10_case := mkCase {
   c_signed : option signed                       (* None: not requested, or the implementation raised *)
 }.
 
+(* every script of the scenario has a 28-byte hash in the table, and the scenario is inside the domain of the
+   theorems (side conditions of C10_required_complete / C10_witnesses) *)
+Definition c10_domain (c : c10_case) : bool :=
+  let b := c_b c in
+  forallb (has_sh (c_h28 c)) (all_scripts b ++ b_reference_scripts b ++ b_input_scripts b ++ b_refin_scripts b
+                              ++ out_scripts (map snd (c_utxos c)))
+  && refs_registeredb (sh_of (c_h28 c)) b && refs_usedb (sh_of (c_h28 c)) b.
+
 Definition c10_corr (c : c10_case) : bool :=
-  c10_corr_slice (c_b c) (c_slice c)
+  c10_domain c
+  && c10_corr_slice (sh_of (c_h28 c)) (c_b c) (c_slice c)
   && match c_signed c with
      | None => negb (c_sign c)
      | Some g => c10_corr_sign (c_b c) (c_keys c) (c_auto c) (c_force c) (c_pubs c) (c_h28 c) (g_sigs g) (c_utxos c)
@@ -300,14 +350,14 @@ Definition c10_corr (c : c10_case) : bool :=
 
 Definition c10_oracle_case (c : c10_case) : bool :=
   (* prepared builder: placeholder witnesses against the specification applied to the scenario's transaction *)
-  c10_oracle_fake (tx_of (c_b c)) (b_witness_override (c_b c)) (s_fake (c_slice c))
+  c10_oracle_fake (sh_of (c_h28 c)) (tx_of (sh_of (c_h28 c)) (c_b c)) (b_witness_override (c_b c)) (s_fake (c_slice c))
   &&
   match c_signed c with
   | None => true
   | Some g =>
       (* placeholder count after the build against the specification applied to the transaction actually returned *)
       match b_witness_override (c_b c), read_tx (c_utxos c) (g_tx g) with
-      | None, Some r => count_ok (r_desc r) (g_fake_post g)
+      | None, Some r => count_ok (sh_of (c_h28 c)) (r_desc r) (g_fake_post g)
       | None, None => false
       | Some _, _ => true
       end
